@@ -11,6 +11,7 @@
 package main
 
 import (
+	"context"
 	"errors"
 	"fmt"
 	"math"
@@ -19,6 +20,7 @@ import (
 	"sync/atomic"
 
 	"github.com/bradenaw/juniper/iterator"
+	"github.com/bradenaw/juniper/stream"
 	"github.com/bradenaw/juniper/xerrors"
 	"github.com/bradenaw/juniper/xmaps"
 	"github.com/bradenaw/juniper/xmath"
@@ -832,6 +834,25 @@ func checkXrandStructure(maxN int, seeds int) {
 				}
 				if pp := try(func() { g3 = xrand.RSampleIterator(r, iterator.Slice(items), k) }); pp != nil || len(g3) != want || !distinctIn(g3, n) {
 					fail("xrand/SampleIterator", "RSampleIterator(seed %d, n=%d, k=%d) = %v (panic %v)", seed, n, k, g3, pp)
+				}
+				if seed < 64 {
+					var g4 []int
+					var err error
+					if pp := try(func() {
+						g4, err = xrand.RSampleStream(context.Background(), r, stream.FromIterator(iterator.Slice(items)), k)
+					}); pp != nil || err != nil || len(g4) != want || !distinctIn(g4, n) {
+						fail("xrand/SampleStream", "RSampleStream(seed %d, n=%d, k=%d) = %v, %v (panic %v)", seed, n, k, g4, err, pp)
+					}
+					// the package-level functions draw from the global source: structure only
+					if g := xrand.Sample(n, k); len(g) != want || !distinctIn(g, n) {
+						fail("xrand/Sample", "Sample(%d,%d) = %v", n, k, g)
+					}
+					if g := xrand.SampleSlice(items, k); len(g) != want || !distinctIn(g, n) {
+						fail("xrand/SampleSlice", "SampleSlice(n=%d,%d) = %v", n, k, g)
+					}
+					if g := xrand.SampleIterator(iterator.Slice(items), k); len(g) != want || !distinctIn(g, n) {
+						fail("xrand/SampleIterator", "SampleIterator(n=%d,%d) = %v", n, k, g)
+					}
 				}
 			}
 		}
